@@ -32,6 +32,28 @@ def validateAndConvert : List SwComp → Outcome (List (Option SwComp))
 def replaceVals (vals : List SwComp) : Outcome (Option (List (Option SwComp))) :=
   (validateAndConvert vals).bind fun l => .ok (some l)
 
+/-- `(*SwComponents).Add` on a container holding `old`: everything is validated and converted first, then appended -/
+def addVals (old : List (Option SwComp)) (vals : List SwComp) : Outcome (List (Option SwComp)) :=
+  (validateAndConvert vals).bind fun l => .ok (old ++ l)
+
+/-- the container's own mutators -/
+inductive ContOp
+  | add (l : List SwComp)
+  | replace (l : List SwComp)
+  deriving DecidableEq, Repr
+
+def contStep (cur : List (Option SwComp)) : ContOp → List (Option SwComp) × Outcome Unit
+  | .add l =>
+    match addVals cur l with
+    | .ok n => (n, .ok ())
+    | .err m => (cur, .err m)
+    | .panic s => (cur, .panic s)
+  | .replace l =>
+    match validateAndConvert l with
+    | .ok n => (n, .ok ())
+    | .err m => (cur, .err m)
+    | .panic s => (cur, .panic s)
+
 def applySet (c : Claims) (op : SetOp) : Claims × Outcome Unit :=
   match op with
   | .clientId v => ({ c with clientId := some v }, .ok ())
